@@ -385,10 +385,10 @@ PROPS = {
         "owned_oracles": ["accept-predicate", "rejected-unchanged", "X signal 11"],
         "owned_diffs": ["panic", "result"],
     },
-    "C12": {"modules": ["MiniVecProof.Props.C01"],
+    "C12": {"modules": ["MiniVecProof.Props.C12", "MiniVecProof.Props.C10IntoIter"],
             "cases": lambda tier, seed: [("debug", corpus("debug", "C12") + clone_cases(tier, seed, "debug"))],
             "owned_oracles": ["O ledger", "O alloc", "X signal", "O vec-mismatch"], "owned_diffs": ["own", "contents", "result", "alloc", "ub", "crash", "panic"],
-            "partial_missing": ["clone / IntoIter::clone are hand-modelled and tied by correspondence with owning elements in both drop orders; no clone-specific theorem yet beyond the refinement lemmas the clone is built from (push)"]},
+            "partial_missing": ["proved: Clone for MiniVec returns a well-formed vector of value-equal clones in order with the source handle untouched, or stops in a sanctioned way (C12_clone_partial); IntoIter::as_slice (what IntoIter::clone copies) is exactly the unyielded elements (into_as_slice); IntoIter::clone, clone_from and independence under later mutation/drop in either order: correspondence with owning elements only"]},
     "C14": {"modules": ["MiniVecProof.Props.C14"],
             "cases": lambda tier, seed: [("debug", corpus("debug", "C14") + raw_cases(tier, seed, "debug")), ("release", raw_cases(tier, seed, "release"))],
             "owned_oracles": ["O rawparts", "O cap", "O ledger", "X signal", "O vec-mismatch", "rawparts-null", "O alloc"], "owned_diffs": ["ub", "result", "contents", "crash", "panic"]},
